@@ -159,7 +159,10 @@ package core
 //@ event InitFlowCancel = call go.amzn.com/lambda/core.(*initFlowSynchronizationImpl).CancelWithError
 
 //@ event DeadlineHit = recv call:context.(Context).Done
+//@ func (*initFlowSynchronizationImpl).AwaitRuntimeReadyWithDeadline$1
+//@   requires s != nil && initFlowWired(s)
 //@ func (*initFlowSynchronizationImpl).AwaitRuntimeReadyWithDeadline
+//@   requires ref(ctx) != 0
 //@   modifies all(gateImpl.canceled), all(gateImpl.err), events(InitFlowCancel)
 //@   ensures [deadline-means-timeout-error-and-cancel] delta(DeadlineHit) <= 1 && (delta(DeadlineHit) == 1 ==> r0 == interop.ErrRestoreHookTimeout && cnt(InitFlowCancel) == old(cnt(InitFlowCancel)) + 1) && (delta(DeadlineHit) == 0 ==> cnt(InitFlowCancel) == old(cnt(InitFlowCancel)))
 //@   ensures [timeout-cancels-all] cnt(InitFlowCancel) != old(cnt(InitFlowCancel)) ==> r0 == interop.ErrRestoreHookTimeout && gateCancelled(s.externalAgentsRegisteredGate, r0) && gateCancelled(s.runtimeReadyGate, r0) && gateCancelled(s.agentReadyGate, r0) && gateCancelled(s.runtimeRestoreReadyGate, r0)
